@@ -653,7 +653,8 @@ def verify_entire_folder(
                 # TODO: find new directories here
                 continue
 
-            for hash_list in existing_history.hash_lists:
+            # (the records of the history the file belongs to, the path is relative to that history)
+            for hash_list in history.hash_lists:
                 for media_hash in hash_list.media_hashes:
                     if media_hash.path != history_relative_path:
                         continue
@@ -1095,7 +1096,8 @@ def diff_entire_folder_against_full_history_subcommand(root_path, verbose, ignor
                 # TODO: find new directories here
                 continue
 
-            for hash_list in existing_history.hash_lists:
+            # (the records of the history the file belongs to, the path is relative to that history)
+            for hash_list in history.hash_lists:
                 for media_hash in hash_list.media_hashes:
                     if media_hash.path != history_relative_path:
                         continue
